@@ -1,13 +1,169 @@
-import CalicoVerif.Model.C07
+import CalicoVerif.Proofs.C07Ops
+import CalicoVerif.Proofs.C07Restr
 /-!
 C07 — Indexed selector matching equals direct selector evaluation.
+
+Property theorems only; helper lemmas in `CalicoVerif.Proofs.C07*`, model in
+`CalicoVerif.Model.C07` (selectors: the shared model `CalicoVerif.Model.C06*`).
+
+Proved here, for ALL histories of InheritIndex operations (any ids, labels,
+parent chains, selectors):
+* `index_eq_eval` — after any history a (selector, item) pair is in the match set
+  exactly when both exist and the selector evaluates to true on the item's
+  effective labels (own labels first, then the parents in order, first wins);
+* `callbacks_alternate` — the callbacks of a history form a legal trace: a start
+  only for a pair that is not matching, a stop only for one that is, and the
+  trace reconstructs the final match set from the empty one.
+* `restrictions_sound` — for every selector and every label map: if the selector
+  matches the map, the map satisfies the selector's `LabelRestrictions()`;
+* `candidates_complete` — hence the restriction index's pruning
+  (`AllPotentialMatches`, modelled by its specification `isCandidate`) never drops
+  a selector that matches the item.
+Limits: the restriction index is modelled by its specification (which selector is
+filed where), not by its nested maps; the incremental Add/Delete bookkeeping of
+the real index is tied to that specification by correspondence only.
 -/
 namespace CalicoVerif.C07
 open CalicoVerif.C06
 
-/-- `storeMatch` emits a start exactly when the pair was not matching. -/
-theorem storeMatch_events (ms : List (Nat × Nat)) (s i : Nat) :
-    (storeMatch ms s i).2 = if hasMatch ms s i then [] else [Event.started s i] := by
-  unfold storeMatch; split <;> rfl
+/-- The operations of `InheritIndex`. -/
+inductive Op
+  | updateLabels (id : Nat) (labels : List (Str × Str)) (parents : List Str)
+  | deleteLabels (id : Nat)
+  | updateParentLabels (pid : Str) (labels : List (Str × Str))
+  | deleteParentLabels (pid : Str)
+  | updateSelector (id : Nat) (sel : Node)
+  | deleteSelector (id : Nat)
+
+def Op.apply (st : Idx) : Op → Idx × List Event
+  | .updateLabels id l ps => C07.updateLabels st id l ps
+  | .deleteLabels id => C07.deleteLabels st id
+  | .updateParentLabels p l => C07.updateParentLabels st p l
+  | .deleteParentLabels p => C07.deleteParentLabels st p
+  | .updateSelector id n => C07.updateSelector st id n
+  | .deleteSelector id => C07.deleteSelector st id
+
+/-- Run a history from a state; returns the final state and all callbacks in order. -/
+def runFrom : Idx → List Op → Idx × List Event
+  | st, [] => (st, [])
+  | st, op :: ops =>
+    let (st1, e1) := op.apply st
+    let (st2, e2) := runFrom st1 ops
+    (st2, e1 ++ e2)
+
+/-- Run a history on a fresh index (`NewInheritIndex`). -/
+def run (ops : List Op) : Idx × List Event := runFrom {} ops
+
+theorem apply_inv {st : Idx} (h : Inv st) (op : Op) : Inv (op.apply st).1 := by
+  cases op with
+  | updateLabels id l ps => exact updateLabels_inv h id l ps
+  | deleteLabels id => exact deleteLabels_inv h id
+  | updateParentLabels p l => exact updateParentLabels_inv h p l
+  | deleteParentLabels p => exact deleteParentLabels_inv h p
+  | updateSelector id n => exact updateSelector_inv h id n
+  | deleteSelector id => exact deleteSelector_inv h id
+
+theorem runFrom_inv : ∀ (ops : List Op) {st : Idx}, Inv st → Inv (runFrom st ops).1
+  | [], _, h => h
+  | op :: ops, st, h => by
+    simp only [runFrom]
+    exact runFrom_inv ops (apply_inv h op)
+
+/-- FULL (histories): after ANY sequence of operations on a fresh index, a
+(selector id, item id) pair is reported as matching iff the selector and the item
+currently exist and the selector evaluates to true on the item's effective labels. -/
+theorem index_eq_eval (ops : List Op) (sel item : Nat) :
+    (sel, item) ∈ (run ops).1.matched ↔
+      ∃ n it, lookup sel (run ops).1.sels = some n ∧ lookup item (run ops).1.items = some it ∧
+        n.eval (effLabels (run ops).1 it) = true :=
+  (runFrom_inv ops inv_empty).sound (sel, item)
+
+/-- Effective labels: own labels override the parents', the first parent that has
+the label wins, parents without labels (or unknown) contribute nothing. -/
+theorem effLabels_spec (st : Idx) (it : Item) (k : Str) :
+    effLabels st it k =
+      match lookup k it.labels with
+      | some v => some v
+      | none => (it.parents.findSome? (fun p => lookup k ((lookup p st.parents).getD []))) := by
+  unfold effLabels
+  cases lookup k it.labels with
+  | some v => rfl
+  | none =>
+    simp only []
+    induction it.parents with
+    | nil => rfl
+    | cons p ps ih =>
+      simp only [firstParent, parentLabels, List.findSome?_cons]
+      cases lookup k ((lookup p st.parents).getD []) with
+      | some v => rfl
+      | none => exact ih
+
+theorem apply_replay {st : Idx} (h : Inv st) (op : Op) :
+    Replay st.matched (op.apply st).2 (op.apply st).1.matched := by
+  cases op with
+  | updateLabels id l ps => exact scanSelectors_replay _ _ _ _ _
+  | deleteLabels id => exact dropMatches_replay _ _ h.matchedNodup
+  | updateParentLabels p l => exact flushItems_replay _ _ _
+  | deleteParentLabels p => exact flushItems_replay _ _ _
+  | updateSelector id n =>
+    simp only [Op.apply, C07.updateSelector]
+    split
+    · split
+      · exact .nil _
+      · exact scanItems_replay _ _ _ _ _
+    · exact scanItems_replay _ _ _ _ _
+  | deleteSelector id => exact dropMatches_replay _ _ h.matchedNodup
+
+theorem runFrom_replay : ∀ (ops : List Op) {st : Idx}, Inv st →
+    Replay st.matched (runFrom st ops).2 (runFrom st ops).1.matched
+  | [], _, _ => .nil _
+  | op :: ops, st, h => by
+    simp only [runFrom]
+    exact (apply_replay h op).append (runFrom_replay ops (apply_inv h op))
+
+/-- FULL (histories): the callbacks emitted along ANY history alternate per pair —
+`OnMatchStarted` is only ever called for a pair that is not matching,
+`OnMatchStopped` only for a pair that is (never two starts, never a stop without
+a start) — and replaying them from the empty set yields the final match set. -/
+theorem callbacks_alternate (ops : List Op) : Replay [] (run ops).2 (run ops).1.matched :=
+  runFrom_replay ops inv_empty
+
+/-- FULL (all selectors, all label maps): a label map that the selector matches
+satisfies every restriction `LabelRestrictions()` derives (must-be-present,
+must-be-absent, must-have-one-of-values), so pruning on them is safe. -/
+theorem restrictions_sound (t : Node) (ls : Labels) (h : t.eval ls = true) :
+    ∀ l r, (l, r) ∈ restrictions t →
+      (r.mustBePresent = true → ls l ≠ none) ∧ (r.mustBeAbsent = true → ls l = none) ∧
+      (∀ vs, r.values = some vs → ∃ x, ls l = some x ∧ x ∈ vs) :=
+  restrictions_sound_aux ls t h
+
+/-- FULL: a selector that matches an item (given by its effective label list) is
+always among the restriction index's candidates for that item. -/
+theorem candidates_complete (ri : RIdx) (id : Nat) (n : Node) (kvs : List (Str × Str))
+    (hmem : (id, n) ∈ ri) (h : n.eval (Labels.ofList kvs) = true) : id ∈ ri.candidates kvs := by
+  unfold RIdx.candidates
+  exact List.mem_map.mpr ⟨(id, n), List.mem_filter.mpr ⟨hmem, candidates_complete_aux n kvs h⟩, rfl⟩
+
+/-! ### non-vacuity -/
+
+/-- `a == "x" && has(b)`: both labels restricted; pruned for an item without `a=x`. -/
+def selAB : Node := .and [.eq ['a'] ['x'], .has ['b']]
+example : restrictions selAB =
+    [(['b'], { mustBePresent := true }), (['a'], { mustBePresent := true, values := some [['x']] })] := by decide
+example : isCandidate selAB [(['a'], ['y']), (['b'], ['z'])] = false := by decide
+example : isCandidate selAB [(['a'], ['x'])] = true := by decide
+/-- an unsatisfiable selector is never a candidate. -/
+example : isCandidate (.and [.eq ['a'] ['x'], .eq ['a'] ['y']]) [(['a'], ['x'])] = false := by decide
+
+
+def selA : Node := .eq ['a'] ['x']
+def history : List Op :=
+  [.updateSelector 0 selA, .updateLabels 7 [] [['p']], .updateParentLabels ['p'] [(['a'], ['x'])],
+   .updateLabels 7 [(['a'], ['y'])] [['p']], .deleteParentLabels ['p']]
+
+/-- the item inherits `a=x` from profile `p` (start), then its own `a=y` overrides it (stop). -/
+example : (run history).2 = [.started 0 7, .stopped 0 7] := by decide
+example : (run history).1.matched = [] := by decide
+example : (run (history.take 3)).1.matched = [(0, 7)] := by decide
 
 end CalicoVerif.C07
